@@ -26,7 +26,23 @@ type Parser struct {
 	currentToken *Token // Current token being processed
 	peekToken    *Token // Next token (lookahead)
 	resolver     ReferenceResolver
+	depth        int // Current nesting depth of arrays and dictionaries
 }
+
+// maxNestingDepth bounds how deep arrays and dictionaries may nest. Parsing is recursive: without
+// a bound a file consisting of millions of '[' exhausts the stack, which no caller can recover from.
+const maxNestingDepth = 256
+
+// enter counts one more level of nesting; the caller must call p.leave when it is done.
+func (p *Parser) enter() error {
+	if p.depth >= maxNestingDepth {
+		return fmt.Errorf("arrays and dictionaries nested deeper than %d levels", maxNestingDepth)
+	}
+	p.depth++
+	return nil
+}
+
+func (p *Parser) leave() { p.depth-- }
 
 // SetReferenceResolver sets the reference resolver for the parser.
 // This is needed to resolve indirect stream lengths.
@@ -221,6 +237,10 @@ func (p *Parser) parseArray() (Object, error) {
 	if p.currentToken.Type != TokenArrayStart {
 		return nil, fmt.Errorf("expected '[', got %v", p.currentToken.Type)
 	}
+	if err := p.enter(); err != nil {
+		return nil, err
+	}
+	defer p.leave()
 	p.nextToken()
 
 	var arr Array
@@ -258,6 +278,10 @@ func (p *Parser) parseDict() (Object, error) {
 	if p.currentToken.Type != TokenDictStart {
 		return nil, fmt.Errorf("expected '<<', got %v", p.currentToken.Type)
 	}
+	if err := p.enter(); err != nil {
+		return nil, err
+	}
+	defer p.leave()
 	p.nextToken()
 
 	dict := make(Dict)
